@@ -46,8 +46,8 @@ UNIT = Unit(
            closures=[Closure(0, "tx: Transaction", "(r: Option<Transaction>)", ensures=[C("pred", "r == (if is_swap_req(*state, tx) { Some(tx) } else { None::<Transaction> })", "C15")])]),
         Fn(M, "get_deposit_transactions", home="C15", implicit_props=("C09", "C15"),
            requires=[C("wf", "state.coins.wf()")],
-           ensures=[C("selected", "selected(state.transactions@, res@, |tx: Transaction| is_deposit_req(*state, tx))", "C15", "C01")],
-           rewrites=[("ANF", "collect", 0, 4, {2: sel_proof("is_deposit_req")})],
+           ensures=[C("selected", "selected(state.transactions@, res@, deposit_pred(*state))", "C15", "C01")],
+           rewrites=[("ANF", "collect", 0, 4, {2: sel_proof("is_deposit_req", "deposit_pred(*state)")})],
            closures=[Closure(0, "tx: Transaction", "(r: Option<Transaction>)", ensures=[C("pred", "r == (if is_deposit_req(*state, tx) { Some(tx) } else { None::<Transaction> })", "C15")])]),
         Fn(M, "get_withdrawal_transactions", home="C15", implicit_props=("C09", "C15"),
            requires=[C("wf", "state.coins.wf()")],
@@ -208,7 +208,52 @@ UNIT = Unit(
            ensures=[C("exist", """(forall|k: PoolKey| #[trigger] res.pools@.contains_key(k) <==> (state.pools@.contains_key(k) || k == pk_mel_sym() || k == pk_mel_erg() || (spec_tip(state.network, state.height, 180000) && k == pk_erg_sym())))""", "C16"),
                     C("values", "forall|k: PoolKey| #[trigger] res.pools@.contains_key(k) ==> (if state.pools@.contains_key(k) { res.pools@[k] == state.pools@[k] } else { is_initial_pool(res.pools@[k]) })", "C16"),
                     C("frame", "pool_phase_frame(state, res) && res.fee_pool == state.fee_pool && res.coins == state.coins", "C16", "C17")]),
-        Fn(M, "process_deposits", mode="assume", **mm_phase("deposits")),
+        Fn(M, "process_deposits", home="C15", implicit_props=("C09", "C15", "C16", "C01"), **mm_process_deposits(),
+           rewrites=[("MUTPARAM", "state", "st"), ("R3", 0)],
+           injects=[Inject(("after_let", "deposit_reqs"), """let ghost s0 = state; let ghost c0 = state.coins@.coins; let ghost reqs = deposit_reqs@; let ghost legacy = deposit_legacy(state.network, state.height);
+                        let ghost mut mint: spec_fn(PoolKey) -> int = |k: PoolKey| 0int;
+                        proof { lemma_selected_deposits(s0, reqs); }"""),
+                    Inject(("after_let", "pools"), """proof { assert(deposit_reqs@ == reqs);
+                        assert(done_set(pools@, 0) =~= ISet::<PoolKey>::empty());
+                        assert(deps_done(s0.pools@, c0, s0.height, legacy, reqs, done_set(pools@, 0), mint, st.pools@, st.coins@.coins)); }"""),
+                    Inject("before_tail", """proof { let n = pools@.len() as int; let fin = mentioned_set(reqs);
+                        assert(done_set(pools@, n) =~= fin) by {
+                            assert forall|k2: PoolKey| done_set(pools@, n).contains(k2) <==> fin.contains(k2) by {
+                                if done_set(pools@, n).contains(k2) { let j = choose|j: int| 0 <= j < n && pools@[j] == k2; assert(pools@.contains(k2)); }
+                                if mentions(reqs, k2) { assert(pools@.contains(k2)); let j = choose|j: int| 0 <= j < pools@.len() && pools@[j] == k2; } } }
+                        assert(selected(s0.transactions@, reqs, deposit_pred(s0)));
+                        assert(deps_done(s0.pools@, c0, s0.height, legacy, reqs, fin, mint, st.pools@, st.coins@.coins));
+                        assert(pools_ok(st.pools@)) by { assert forall|k2: PoolKey| #[trigger] st.pools@.contains_key(k2) implies
+                            ((pool_live(st.pools@[k2]) && st.pools@[k2].liqs > 0) || (st.pools@[k2].lefts == 0 && st.pools@[k2].rights == 0 && st.pools@[k2].liqs == 0)) by {
+                                if fin.contains(k2) { lemma_deposit_keeps_ok(s0.pools@, reqs, k2, st.pools@[k2], mint(k2), c0); } } }
+                        assert(st.pools@.contains_key(pk_mel_sym()) && st.pools@.contains_key(pk_mel_erg()));
+                        if spec_tip(s0.network, s0.height, 180000) { assert(st.pools@.contains_key(pk_erg_sym())); }
+                        if fin.contains(pk_mel_sym()) { assert(st.pools@.contains_key(pk_mel_sym())); lemma_deposit_keeps_ok(s0.pools@, reqs, pk_mel_sym(), st.pools@[pk_mel_sym()], mint(pk_mel_sym()), c0); }
+                        if fin.contains(pk_mel_erg()) { assert(st.pools@.contains_key(pk_mel_erg())); lemma_deposit_keeps_ok(s0.pools@, reqs, pk_mel_erg(), st.pools@[pk_mel_erg()], mint(pk_mel_erg()), c0); }
+                        if fin.contains(pk_erg_sym()) { assert(st.pools@.contains_key(pk_erg_sym())); lemma_deposit_keeps_ok(s0.pools@, reqs, pk_erg_sym(), st.pools@[pk_erg_sym()], mint(pk_erg_sym()), c0); }
+                        assert(builtins_live(st)); assert(state_inv(st)); }""")],
+           loops=[Loop(0, binder="it",
+               body_entry="""let ghost pb = st.pools@; let ghost cb = st.coins@.coins; let ghost i = it.index@ as int; let ghost k = *pool;
+                   proof { assert(k == pools@[i]); assert(pools@.contains(k)); assert(mentions(reqs, k));
+                       assert(!done_set(pools@, i).contains(k)) by { if done_set(pools@, i).contains(k) { let j = choose|j: int| 0 <= j < i && pools@[j] == k; assert(pools@[j] == pools@[i]); } }
+                       lemma_pool_deps_pre(c0, reqs, k); lemma_selected_from(s0, reqs, deposit_pred(s0), k);
+                       assert(st.pools@.contains_key(k) ==> pb[k] == s0.pools@[k]); }""",
+               body_exit="""proof { let minted = choose|minted: int| #[trigger] deposits_result(pb, cb, pool_reqs(reqs, k), k, s0.height, legacy, st.pools@, st.coins@.coins, minted);
+                       lemma_deps_done_step(s0.pools@, c0, s0.height, legacy, reqs, done_set(pools@, i), mint, pb, cb, k, st.pools@, st.coins@.coins, minted);
+                       mint = |k2: PoolKey| if k2 == k { minted } else { mint(k2) };
+                       assert(done_set(pools@, i + 1) =~= done_set(pools@, i).insert(k)) by {
+                           assert forall|k2: PoolKey| done_set(pools@, i + 1).contains(k2) <==> done_set(pools@, i).insert(k).contains(k2) by {
+                               if done_set(pools@, i + 1).contains(k2) { let j = choose|j: int| 0 <= j < i + 1 && pools@[j] == k2; if j < i { assert(done_set(pools@, i).contains(k2)); } }
+                               if done_set(pools@, i).contains(k2) { let j = choose|j: int| 0 <= j < i && pools@[j] == k2; assert(0 <= j < i + 1 && pools@[j] == k2); }
+                               if k2 == k { assert(0 <= i < i + 1 && pools@[i] == k2); } } } }""",
+               invariants=[
+                   C("ctx", """refs_of(it.seq(), pools@) && deposit_reqs@ == reqs && dep_reqs_ok(c0, reqs) && (forall|j: int| 0 <= j < reqs.len() ==> is_deposit_req(s0, #[trigger] reqs[j])) && c0 == s0.coins@.coins && pools@.no_duplicates()
+                         && (forall|k: PoolKey| #[trigger] pools@.contains(k) <==> mentions(reqs, k)) && state_inv(s0) && builtins_live(s0) && pools_ok(s0.pools@) && deposit_weights_fit(s0.transactions@)
+                         && selected(s0.transactions@, reqs, deposit_pred(s0)) && legacy == deposit_legacy(s0.network, s0.height)""", "C15"),
+                   C("frame", "pool_phase_frame(s0, st) && st.fee_pool == s0.fee_pool && st.height == s0.height && st.network == s0.network", "C15", "C17"),
+                   C("inv", "st.coins.wf() && (spec_tip906(s0) ==> counts_ok(st.coins@)) && origin_ok(st.coins@.coins) && (!spec_tip906(s0) ==> st.coins@.counts == s0.coins@.counts)", "C20"),
+                   C("done", "deps_done(s0.pools@, c0, s0.height, legacy, reqs, done_set(pools@, it.index@ as int), mint, st.pools@, st.coins@.coins)", "C15", "C01"),
+               ])]),
         Fn(M, "process_withdrawals", mode="assume", **mm_phase("withdrawals")),
         Fn(M, "process_pegging", mode="assume", **mm_phase("pegging")),
         Fn(M, "process_swaps", home="C15", implicit_props=("C09", "C15", "C16", "C01"), **mm_process_swaps(),
@@ -218,7 +263,7 @@ UNIT = Unit(
                     Inject(("after_let", "pools"), """proof { assert(swap_reqs@ == reqs);
                         assert(done_set(pools@, 0) =~= ISet::<PoolKey>::empty());
                         assert(swaps_done(s0.pools@, c0, s0.height, reqs, done_set(pools@, 0), st.pools@, st.coins@.coins)); }"""),
-                    Inject("before_tail", """proof { let n = pools@.len() as int; let fin = ISet::new(|k: PoolKey| mentions(reqs, k));
+                    Inject("before_tail", """proof { let n = pools@.len() as int; let fin = mentioned_set(reqs);
                         assert(done_set(pools@, n) =~= fin) by {
                             assert forall|k2: PoolKey| done_set(pools@, n).contains(k2) <==> fin.contains(k2) by {
                                 if done_set(pools@, n).contains(k2) { let j = choose|j: int| 0 <= j < n && pools@[j] == k2; assert(pools@.contains(k2)); }
